@@ -413,6 +413,14 @@ func c13run(sc *c13scn, s *vt.Sink) (err error) {
 		closeObj("stream", func() { bd.Stream.Close() })
 	}
 	closeServer()
+	if sc.Seed%3 == 0 {
+		// Close once more on objects that are closed already: it must return as well
+		for _, c := range clients {
+			closeObj("client", func() { c.Close() })
+		}
+		closeObj("stream", func() { bd.Stream.Close() })
+		closeObj("server", func() { bd.S.Close() })
+	}
 
 	// census: library goroutines that outlive their objects, ports still bound
 	left := 0
